@@ -36,6 +36,8 @@ func runC03(c *core.Ctx) {
 	checkAverageTrigger(c)
 	c.Rule("PROTO", "aggregate prototypes hand out fresh state")
 	checkPrototypeFreshState(c)
+	c.Rule("ORD4", "a triggered key retracts its previously sent row and remembers the new one (one live row per key; shared with C15/C16)")
+	checkTriggerRetraction(c, ids)
 	c.Rule("ABS4", "key comparators are ascending")
 	for _, s := range groupBySites {
 		checkNullSkip(c, s.rel, s.fn, ids)
